@@ -274,6 +274,11 @@ class AxisEval:
                 if name != "permute":
                     rest = self._expand_shape_args(rest)
                 return self._shape_op(name, f.value, rest, c)
+            if name == "t" and not c.args:
+                lay = list(self.ev(f.value))
+                if len(lay) != 2:
+                    raise Unknown(".t() of a tensor with %d axes" % len(lay))
+                return (lay[1], lay[0])
             if name in ("transpose",) and len(c.args) == 2:
                 lay = list(self.ev(f.value))
                 i, j = const_number(c.args[0]), const_number(c.args[1])
